@@ -8,7 +8,7 @@ sys.path.insert(0, str(HERE.parent))
 
 PIN = {"PYTHONHASHSEED": "0", "OPENBLAS_NUM_THREADS": "1", "OMP_NUM_THREADS": "1",
        "MKL_NUM_THREADS": "1", "NUMEXPR_NUM_THREADS": "1", "PYTHONDONTWRITEBYTECODE": "1",
-       "TQDM_DISABLE": "1"}
+       "TQDM_DISABLE": "1", "PYTHONWARNINGS": "ignore"}
 
 
 def _pin_env():
